@@ -3,7 +3,7 @@
 CFG=$1; SRC=$2
 TMP=$(mktemp -d /tmp/tv.XXXXXX)
 if [ -d "$SRC" ]; then cat "$SRC"/*.ndjson > $TMP/all.nd; else cp "$SRC" $TMP/all.nd; fi
-cd /verif/spec && TRACE=$TMP/all.nd timeout 900 tlc -workers 1 -metadir $TMP/meta -noGenerateSpecTE -config $CFG Trace.tla > $TMP/out.txt 2>&1
+cd ${SPECDIR:-/verif/spec} && TRACE=$TMP/all.nd timeout 900 tlc -workers 1 -metadir $TMP/meta -noGenerateSpecTE -config $CFG Trace.tla > $TMP/out.txt 2>&1
 grep -n "Error:\|violated\|states generated" $TMP/out.txt | head -8
 L=$(grep "^/\\\\ l = " $TMP/out.txt | tail -1 | sed 's/.*= //')
 echo "l=$L"
